@@ -461,6 +461,11 @@ def run_c07(ctx):
             vs.append({'t': 'insert', 'at': at, 'k': k, 'pid': rnd_py.choice(pids)})
         for pid in pids:
             vs.append({'t': 'corrupt', 'pid': pid, 'mode': rnd_py.choice(['dropall', 'dropsome', 'garbage', 'tei', 'badaf', 'badaf'])})
+        es = sorted({p['pid'] for p in s['pkts'] if p.get('k', '') == '' and p['pid'] >= 0x100 and p['pid'] != 0x1000 and p['pid'] != 0x1001})
+        free = [q for q in (0x14, 0x13, 0x12, 0x11, 0x10) if q not in pids]
+        if es and free:
+            # a PAT-shaped section on another PID than 0 naming an elementary PID as a program map PID: that PID's output is unchanged
+            vs.append({'t': 'foreignpat', 'pid': free[0], 'at': rnd_py.choice(es)})
         if n >= 4 and len(scs) % (40 if quick else 10) == 7:
             # very long gaps between two packets of every PID: more null packets than any 16-bit packet count holds, once and twice over
             for cnt in (70000, 140000):
